@@ -96,7 +96,11 @@ struct World {
   // hook invoked between directory-related calls (used for the concurrent deleter task)
   void (*between_dir_calls)() = nullptr;
   bool shuffle_readdir = false;
-  bool own_empty_polls = false; // poll() with no descriptors is answered here (returns 0 at once) instead of really sleeping
+  bool own_empty_polls = false;
+  // The calling process "has no descriptor 0": the next open() of a simulated path is handed the number 0
+  // (once per run). While set, descriptor 0 belongs to the simulated kernel; the harness never uses stdin.
+  bool hand_out_fd0 = false;
+  bool fd0_is_virtual = false; // poll() with no descriptors is answered here (returns 0 at once) instead of really sleeping
 };
 
 World& world();
